@@ -235,6 +235,22 @@ func applyOp(t *topic.Tree, m model, op string) {
 	}
 }
 
+func (y *treeSys) queryAll() {
+	for _, q := range y.u.getQ {
+		y.t.Get(q)
+	}
+	for _, q := range y.u.matchQ {
+		y.t.Match(q)
+		y.t.MatchFirst(q)
+	}
+	for _, q := range y.u.searchQ {
+		y.t.Search(q)
+		y.t.SearchFirst(q)
+	}
+	y.t.All()
+	y.t.Count()
+}
+
 func (y *treeSys) takeSnaps() {
 	y.snaps = nil
 	add := func(what string, vs []interface{}) {
@@ -386,6 +402,10 @@ func closure(uname string) *explore.Closure {
 				}
 				applyOp(y.t, y.m, ops[o])
 				y.last = ops[o]
+				if i < len(path)-1 {
+					// queries run after every step, so that any state a query leaves behind (a cache) is on the path too
+					y.queryAll()
+				}
 			}
 			return y
 		},
@@ -514,6 +534,7 @@ func run(r *report.Report) {
 			r.Sample(map[string]string{"part": "closure-" + un, "operations": s})
 		}
 	}
+	r.RacePass()
 	bound := 4
 	if r.Tier == "thorough" {
 		bound = 30
